@@ -62,7 +62,16 @@ def run(tier, seed):
     agg = vlib.irx_aggregate(res)
     witness_ok = any(x.get("type") == "assert_fail" and "WITNESS" in x.get("what", "") for x in wit["records"])
     samples, n = irx_common.collect("C08", wd, rep, keys, res)
-    return irx_common.finish("C08", tier, seed, t0, rep, agg, samples, witness_ok, {"functions": ["bxdecay0::" + u for u in UNITS] + ["event::add_particle", "event::grab_last_particle", "std::vector<particle> (ministl)"]}, ASSUME)
+    # the primary double-beta routine (table indexing, per-shot tables): same modules as C07's decay0_bb part
+    wd2, jobs2, res2 = build_and_run_bb("C08", tier)
+    wit2, res2 = res2[-1], res2[:-1]
+    witness_ok = witness_ok and any(x.get("type") == "assert_fail" and "WITNESS" in x.get("what", "") for x in wit2["records"])
+    s2, n2 = irx_common.collect("C08", wd2, rep, [j[0] for j in jobs2[:-1]], res2)
+    agg2 = vlib.irx_aggregate(res2)
+    for k in agg:
+        agg[k] = agg[k] + agg2[k]
+    samples = (samples + s2)[:6]
+    return irx_common.finish("C08", tier, seed, t0, rep, agg, samples, witness_ok, {"functions": ["bxdecay0::" + u for u in UNITS] + ["bxdecay0::decay0_bb", "event::add_particle", "event::grab_last_particle", "std::vector<particle> (ministl)"]}, ASSUME + [BB_ASSUME])
 
 
 def replay(path):
